@@ -141,6 +141,9 @@ func (c *allChain) Step(dt time.Duration) *rig.BlockRecord {
 // countTxs records, per message type, how many transactions succeeded and were rejected.
 func (c *allChain) countTxs(br *rig.BlockRecord) {
 	for _, tx := range br.Txs {
+		if tx.Result == nil {
+			continue // the block did not complete (begin/end block aborted): there are no transaction results to count
+		}
 		if _, poisoned := tx.Tag.(*rig.PoisonedTag); poisoned {
 			c.run.Count("poisoned-tx"+okSuffix(tx), 1)
 			if tx.OK() {
